@@ -1119,7 +1119,7 @@ func (g *Gen) doReturn(x *ssa.Return) {
 	}
 	env := g.fnEnv(g.cur, results)
 	for i, en := range g.fc.Ensures {
-		if en.E == nil {
+		if en.E == nil || en.Kind == "axiom" {
 			continue
 		}
 		s, err := g.evalBool(env, en.E)
